@@ -416,6 +416,7 @@ class Vec:
     def norm(a): return sqrt(a.normSqr())
     def getSubVec(a, n, start): return Vec(a.e[start:start + n])
     def sum(a): return sum(a.e[1:], a.e[0])
+    def asVec4(a): return a            # Quaternion_ is a Vec4 (the shims pass quaternions around as Vec)
 
 
 class Row(Vec):
